@@ -129,7 +129,8 @@ pub async fn accept_loop<F>(
                 conn_handler.clone()(permit.new_sub(), token, stream, addr);
             }
             Some(AcceptResult::TooManyOpenFiles) => {
-                error("too many open files, unable to accept connection", ()).unwrap();
+                // Do not panic when the global logger has stopped.  The server must keep accepting.
+                let _ = error("too many open files, unable to accept connection", ());
                 safina::timer::sleep_for(Duration::from_millis(500)).await;
             }
             Some(AcceptResult::Err(e)) => {
